@@ -56,6 +56,15 @@ CHECKS = {
                      'H/3 keepalive bound, no early close, expiry exactly at last arrival + H with NOTIFICATION(4), H=0 '
                      'silence, and the 240 s OpenSent limit.',
                 ref='7 C03', note=E1_NOTE),
+    'C05': dict(level='model_checking', engine='E1',
+                technique='exhaustive enumeration of configurations x session histories x peer OPEN variants executed on the real session objects',
+                text='For every configuration of the stated product, every history of <= 2 earlier sessions (accepted, rejected, '
+                     'poorer capabilities, hold 0, second OPEN, operator stop/start, version NOTIFICATION) and every peer OPEN '
+                     'variant, the run is executed on the real objects; the agent OPEN is decoded by the reference decoder and '
+                     'compared with the configuration and with the first session, the accept/reject reply with the stated policy, '
+                     'the armed timers with min(configured, proposed), and the AS_PATH delivered to the handler with the '
+                     'capability-65 intersection of this session.',
+                ref='7 C05', note=E1_NOTE),
 }
 
 NOT_YET = 'check not built yet in this session (see DESIGN.md section 7 for the plan); not claimed'
